@@ -31,7 +31,7 @@ func init() {
 			if a.Counters["framed_ok"] < 1000 {
 				return fmt.Errorf("only %d messages were framed", a.Counters["framed_ok"])
 			}
-			return nil
+			return needKinds(a, "kinds", "ctrl")
 		},
 		Assumptions: []string{"type codes from OpenFlow 1.3.5 section 7.1 (ofp_type); Nicira/ONF vendor messages are OFPT_EXPERIMENTER (4)"},
 	})
